@@ -75,6 +75,8 @@ func vfLEVal(b []byte) uint64 {
 	return u
 }
 
+var vfUidGen *UidGenerator
+
 func vfCheckUid(r *vfev.Report, u uint64) {
 	uid := Uid(u)
 	r.Eval(1)
@@ -113,6 +115,20 @@ func vfCheckUid(r *vfev.Report, u uint64) {
 	var back Uid
 	if err := json.Unmarshal(j, &back); err != nil || back != uid {
 		r.Violation("Uid.UnmarshalJSON:roundtrip", fmt.Sprintf("%#x -> %s -> %#x %v", u, j, uint64(back), err), u)
+	}
+	// database form: the adapters store DecodeUid(uid) and read ids back with EncodeInt64
+	if vfUidGen == nil {
+		vfUidGen = &UidGenerator{}
+		if err := vfUidGen.Init(1, []byte("la6YsO+bNX/+XIkO")); err != nil {
+			r.Fail("uid generator: " + err.Error())
+			return
+		}
+	}
+	if back := vfUidGen.EncodeInt64(vfUidGen.DecodeUid(uid)); back != uid {
+		r.Violation("Uid:database-form:roundtrip", fmt.Sprintf("%#x is stored as %d and read back as %#x", u, vfUidGen.DecodeUid(uid), uint64(back)), u)
+	}
+	if other := Uid(u ^ 0x5555); vfUidGen.DecodeUid(other) == vfUidGen.DecodeUid(uid) {
+		r.Violation("Uid:database-form:collision", fmt.Sprintf("%#x and %#x have the same database form %d", u, uint64(other), vfUidGen.DecodeUid(uid)), u)
 	}
 	bin, _ := uid.MarshalBinary()
 	var b2 Uid
